@@ -85,8 +85,10 @@ def build(spec):
             alpha = float(spec["penalty"]["alpha"])
             betas = np.asarray(spec["penalty"]["betas"], dtype=float)
 
-            def pen(n, p, k, scale=1.0, _a=alpha, _b=betas):
-                return _a * scale, _b.copy() * scale
+            per_param = bool(spec["penalty"].get("per_param"))  # per-component terms grow with the parameters per variable
+
+            def pen(n, p, k, scale=1.0, _a=alpha, _b=betas, _pp=per_param):
+                return _a * scale, _b.copy() * scale * (k if _pp else 1)
 
             return pen
         return {k: build(v) for k, v in spec.items()}
